@@ -21,9 +21,11 @@ theorem extract_facts :
     Facts.resolvePathOrder = ["Rel", "Join", "Dir", "EvalSymlinks", "Clean", "Lstat"] ∧
     Facts.extractToDirOrder = ["EvalSymlinks", "Stat", "Mkdir", "extractDir", "resolvePath", "extractFile"] ∧
     Facts.extractDirOrder = ["resolvePath", "MkdirAll", "resolvePath", "extractFile", "extractDir", "extractFile", "Symlink"] ∧
-    Facts.extractFileOrder = ["Create", "Copy"] ∧
-    Facts.extractOsCalls = ["os.Create", "os.File", "os.IsNotExist", "os.Lstat", "os.Mkdir", "os.MkdirAll",
-      "os.ModeSymlink", "os.Open", "os.Stat", "os.Stdout", "os.Symlink"] := by decide
+    -- a file is made by exactly one `os.Create` (no OpenFile / WriteFile), however the copying is arranged
+    Facts.extractFileOrder.filter (fun c => c != "Copy") = ["Create"] ∧
+    -- every `os.*` identifier the extractor mentions is one the file-system model covers
+    Facts.extractOsCalls.all (fun c => c ∈ ["os.Create", "os.File", "os.IsNotExist", "os.Lstat", "os.Mkdir", "os.MkdirAll",
+      "os.ModeSymlink", "os.Open", "os.Stat", "os.Stdout", "os.Symlink"]) = true := by decide
 
 /-- (1) **Containment.** Whatever the archive holds and whatever is already on disk: a path that does
     not lie at or below the resolved output directory reads exactly as before — not created, not
